@@ -11,6 +11,7 @@ package main
 import (
 	"fmt"
 	"os"
+	"path/filepath"
 	"strings"
 
 	"github.com/goghcrow/go-co/rewriter"
@@ -36,6 +37,19 @@ func main() {
 	switch os.Args[1] {
 	case "compile":
 		for _, job := range os.Args[2:] {
+			if strings.HasPrefix(job, "gogen=") {
+				// the same package through the go:generate entry point: gogen=<src>:<dst>:<work>[:<s1>]
+				parts := strings.Split(strings.TrimPrefix(job, "gogen="), ":")
+				if len(parts) < 3 {
+					os.Exit(2)
+				}
+				os.Unsetenv("COVERIF_STAGE1_DIR")
+				if len(parts) >= 4 {
+					os.Setenv("COVERIF_STAGE1_DIR", parts[3])
+				}
+				guarded(parts[0], func() { viaGoGen(parts[0], parts[1], parts[2]) })
+				continue
+			}
 			parts := strings.Split(job, ":")
 			if len(parts) < 2 {
 				os.Exit(2)
@@ -52,5 +66,46 @@ func main() {
 		guarded(os.Args[2], func() { rewriter.GoGen(os.Args[2]) })
 	default:
 		os.Exit(2)
+	}
+}
+
+// viaGoGen runs the package of src through rewriter.GoGen (what cmd/cogen does): the go-co files of src (they use
+// the API) are copied to work as <name>_co.go under the build tag co, everything else as it is; GoGen derives
+// <name>.go next to them; the derived files are copied to dst (where Compile would have written them).
+func viaGoGen(src, dst, work string) {
+	must := func(err error) {
+		if err != nil {
+			panic(err)
+		}
+	}
+	must(os.RemoveAll(work))
+	must(os.MkdirAll(work, 0o755))
+	must(os.MkdirAll(dst, 0o755))
+	ents, err := os.ReadDir(src)
+	must(err)
+	var derived []string
+	for _, e := range ents {
+		if e.IsDir() {
+			continue
+		}
+		bs, err := os.ReadFile(filepath.Join(src, e.Name()))
+		must(err)
+		name := e.Name()
+		if strings.HasSuffix(name, ".go") && strings.Contains(string(bs), "github.com/goghcrow/go-co\"") {
+			derived = append(derived, name)
+			name = strings.TrimSuffix(name, ".go") + "_co.go"
+			bs = append([]byte("//go:build co\n\n"), bs...)
+		}
+		must(os.WriteFile(filepath.Join(work, name), bs, 0o644))
+	}
+	rewriter.GoGen(work)
+	for _, name := range derived {
+		bs, err := os.ReadFile(filepath.Join(work, name))
+		must(err)
+		must(os.WriteFile(filepath.Join(dst, name), bs, 0o644))
+	}
+	left, _ := filepath.Glob(filepath.Join(work, "_co_tmp*"))
+	if len(left) > 0 {
+		panic("GoGen left its temp dir behind: " + left[0])
 	}
 }
